@@ -378,7 +378,8 @@ pub fn describe(d: &Decl) -> String {
         .iter()
         .map(|l| {
             let vs: Vec<String> = l.values.iter().map(|v| match &v.rename { Some(r) => format!("{}: {:?}", v.ident, r), None => v.ident.clone() }).collect();
-            format!("{:?} => {}{{{}}}", l.name, l.enum_name.clone().map(|e| format!("enum {} ", e)).unwrap_or_default(), vs.join(", "))
+            let shown = if vs.len() > 8 { format!("{}, ... ({} values)", vs[..3].join(", "), vs.len()) } else { vs.join(", ") };
+            format!("{:?} => {}{{{}}}", l.name, l.enum_name.clone().map(|e| format!("enum {} ", e)).unwrap_or_default(), shown)
         })
         .collect();
     format!(
@@ -569,7 +570,8 @@ impl Property for C19 {
     fn rule(&self) -> &'static str {
         "case = a macro declaration drawn from a grammar: make_static_metric! (Counter, IntCounter, Gauge, IntGauge, Histogram and \
          the three local types) or make_auto_flush_static_metric! (three local types, flush on every update or explicit flush \
-         only), 1-4 labels with 1-4 values each, every label an inline list or a (possibly shared) label_enum, every value bare or \
+         only), 1-4 labels with 1-4 values each (plus, per run, 1 (quick) / 6 (thorough) auto-flush declarations of deployment size: 2 labels with 35-60 values each, \
+         1200-3600 leaves, the thread-local root struct larger than 64 KiB), every label an inline list or a (possibly shared) label_enum, every value bare or \
          renamed to a string from the adversarial fragment pool or to the string of an earlier value of the label (alias), identifiers from a pool that includes names likely to collide with \
          generated locals (x, m, root, inner, get, from, offset1, ...), and a generated permutation of the label order in the backing \
          vector. A batch of declarations is written as one crate (one module each) with a generated driver per declaration, built \
@@ -640,7 +642,22 @@ impl Property for C19 {
             }
             cases.push((bytes, d));
         }
-        let batches: Vec<Vec<(Vec<u8>, Decl)>> = cases.chunks(per_batch).map(|c| c.to_vec()).collect();
+        let mut batches: Vec<Vec<(Vec<u8>, Decl)>> = cases.chunks(per_batch).map(|c| c.to_vec()).collect();
+        // declarations of deployment size (thousands of leaves), one per crate, built alongside the others
+        let nlarge = match tier {
+            Tier::Quick => 1,
+            Tier::Thorough => 6,
+        };
+        let mut x = crate::engine::splitmix(seed ^ 0x1a46e);
+        for _ in 0..nlarge {
+            let mut bytes = vec![2u8];
+            for _ in 0..12 {
+                x = crate::engine::splitmix(x);
+                bytes.push((x >> 24) as u8);
+            }
+            let d = decode_case(&bytes);
+            batches.push(vec![(bytes, d)]);
+        }
         let results: Vec<Result<BatchResult, String>> = std::thread::scope(|s| {
             let hs: Vec<_> = batches
                 .iter()
@@ -677,6 +694,9 @@ impl Property for C19 {
                     stats.distinct_nontrivial.insert(key);
                 }
                 *stats.classes.entry(if d.auto_flush { "auto-flush" } else { "static" }).or_default() += 1;
+                if leaves(d).len() > 1000 {
+                    *stats.classes.entry("deployment-size(1200-3600 leaves, thread-local root > 64 KiB)").or_default() += 1;
+                }
                 if d.labels.iter().any(|l| l.values.iter().enumerate().any(|(i, v)| l.values[..i].iter().any(|o| o.string() == v.string()))) {
                     *stats.classes.entry("two-value-names-share-one-string(alias)").or_default() += 1;
                 }
@@ -710,8 +730,34 @@ impl Property for C19 {
 }
 
 fn decode_with(src: &mut Src) -> Decl {
-    let avoid = src.byte() != 0;
-    gen_decl(src, avoid)
+    let first = src.byte();
+    if first == 2 {
+        return gen_large(src);
+    }
+    gen_decl(src, first != 0)
+}
+
+/// A declaration of deployment size (first byte of the case = 2): two labels of 30-60 values each, so that the generated structs hold
+/// thousands of children inline (the auto-flush thread-local root exceeds 64 KiB: 24 bytes per counter leaf, 56 per histogram leaf)
+/// and field offsets, indices and counters leave the range of the small integer types.
+pub fn gen_large(src: &mut Src) -> Decl {
+    // (auto-flush form only: that is where the generated code does address arithmetic; the static form of this size costs 45 s of
+    // compile time for its try_get chains and has no size-dependent code)
+    let auto_flush = true;
+    let mtype = *src.pick(AUTO_TYPES);
+    let hist = mtype.contains("Histogram");
+    let (lo, span) = if hist { (35, 8) } else { (53, 8) };
+    let lnames = crate::pools::distinct(src, LABEL_NAMES, 2);
+    let mut labels = vec![];
+    for (li, ln) in lnames.iter().enumerate() {
+        let nv = lo + src.below(span);
+        let renamed = src.chance(100);
+        let values = (0..nv)
+            .map(|k| Value { ident: format!("v{:02}", k), rename: if renamed { Some(format!("{}-{}", li, (k * 37) % 101)) } else { None } })
+            .collect();
+        labels.push(Label { name: ln.to_string(), enum_name: if src.chance(100) { Some(format!("E{}", li)) } else { None }, values });
+    }
+    Decl { auto_flush, mtype, labels, vec_order: src.perm(2), flush_every_update: src.chance(128) }
 }
 
 pub fn decode_case(bytes: &[u8]) -> Decl {
